@@ -16,13 +16,13 @@ def run(tier):
     nontrivial = set()
     for i, v in enumerate(vecs):
         r = results.get(i)
-        for op in U.PAIR_OPS:
-            allowed = v[op]
+        for op in U.PAIR_OPS_RUN:
+            allowed = v[U.ALIAS.get(op, op)]
             if r is None or op not in r:
                 continue
             chk.evaluations += 1
             act = r[op]
-            if op in U.STRING_OPS:
+            if U.ALIAS.get(op, op) in U.STRING_OPS:
                 ok = U.view(act) in [U.view(x) for x in allowed]
             else:
                 ok = act in allowed
@@ -53,9 +53,9 @@ def run(tier):
         r = results.get(i)
         if not r:
             continue
-        for op in U.PAIR_OPS:
+        for op in U.PAIR_OPS_RUN:
             if op in r:
-                recs.append({"op": op, "a": v["a"], "b": v["b"], "out": r[op], "view": "content"})
+                recs.append(U.rec(op, v["a"], v["b"], r[op], "content"))
     # find_buf with byte needles that contain NUL (a &[u8] may): every (a, b) with a over {a,b},
     # b over {a,b,NUL}, both up to length 3, plus planted long ones
     fb = []
@@ -86,7 +86,10 @@ def run(tier):
     toks_a = toks_b + [[233], [195], [230, 151]]
     ub = []
     for _ in range(n_rand):
-        bb = sum((rng.choice(toks_b) for _ in range(rng.randint(0, 5))), [])
+        # the second operand is the path of parent_path / path_file_name: in half of the cases it
+        # carries bytes that are not UTF-8 (a path is a byte string; round 8: a file name taken
+        # through as_str() answered None for them)
+        bb = sum((rng.choice(toks_a if rng.random() < 0.5 else toks_b) for _ in range(rng.randint(0, 5))), [])
         m = rng.randint(0, 3)
         if m == 0:
             aa = sum((rng.choice(toks_a) for _ in range(rng.randint(0, 6))), [])
@@ -97,14 +100,26 @@ def run(tier):
         else:
             aa = sum((rng.choice(toks_a) for _ in range(rng.randint(0, 3))), []) + bb
         ub.append({"a": aa, "b": bb})
+    # path-shaped second operands with non-UTF-8 components
+    for _ in range(n_rand // 2):
+        comps = [sum((rng.choice([[97], [233], [255], [195, 169], [128], [46]]) for _ in range(rng.randint(1, 4))), [])
+                 for _ in range(rng.randint(1, 4))]
+        bb = ([47] if rng.random() < 0.5 else []) + sum(([47] + c for c in comps), [])[1:] + ([47] if rng.random() < 0.3 else [])
+        ub.append({"a": sum((rng.choice(toks_a) for _ in range(rng.randint(0, 3))), []), "b": bb})
+    # every total length around the small-buffer sizes an implementation might use (0..600):
+    # base of length n with a one-byte text, and a one-byte base with a text of length n
+    sweep = range(0, 601) if tier != "quick" else list(range(0, 140)) + list(range(250, 262)) + list(range(506, 520))
+    for n in sweep:
+        ub.append({"a": [97 + (k % 3) for k in range(n)], "b": [120]})
+        ub.append({"a": [120], "b": [97 + (k % 3) for k in range(n)]})
     ures, ucr = U.run_driver(chk, bindir, "pair", ub, "c11utf8")
     for i, v in enumerate(ub):
         r = ures.get(i)
         if not r:
             continue
-        for op in U.PAIR_OPS:
+        for op in U.PAIR_OPS_RUN:
             if op in r:
-                recs.append({"op": op, "a": v["a"], "b": v["b"], "out": r[op], "view": "content"})
+                recs.append(U.rec(op, v["a"], v["b"], r[op], "content"))
     for c in ucr:
         v = ub[c["crash"]]
         chk.violate({"op": c["op"], "kind": "crash", "shape": U.crash_shape(c)[0]},
@@ -113,8 +128,8 @@ def run(tier):
     chk.evaluations += len(recs)
     for k in bad:
         r = recs[k]
-        chk.violate({"op": r["op"], "kind": "panic" if r["out"] == [3] else "mismatch", "shape": "long->%s" % U.shape(r["out"])},
-                    "%s on long operands (|a|=%d,|b|=%d) returned %s, rejected by UnixStrJudge" % (r["op"], len(r["a"]), len(r["b"]), r["out"]),
+        chk.violate({"op": r.get("via", r["op"]), "kind": "panic" if r["out"] == [3] else "mismatch", "shape": "long->%s" % U.shape(r["out"])},
+                    "%s on long operands (|a|=%d,|b|=%d) returned %s, rejected by UnixStrJudge" % (r.get("via", r["op"]), len(r["a"]), len(r["b"]), r["out"]),
                     {"mode": "judge", "record": r})
     for c in crashes2:
         v = rv[c["crash"]]
